@@ -96,6 +96,28 @@ pub fn drive(tr: &mut Tracer, rng: &mut StdRng, thorough: bool) {
     for b in [0x7FF0000000000000u64, 0x7FF8000000000000, 0xFFF0000000000000, 0, 1 << 63, 1] {
         tr.emit(json!({"op": "de_token", "ty": "f64", "bits": u128_to_json(b as u128)}));
     }
+    // subnormal and smallest-normal floats of both signs (random bit patterns hardly ever are subnormal)
+    for neg in [0u64, 1u64] {
+        let mut mants: Vec<u64> = vec![1, 2, 3, 1 << 51, (1 << 52) - 1, (1 << 52) - 2, 1 << 26, 0x000F_0F0F_0F0F_0F0F];
+        for _ in 0..(if thorough { 400 } else { 40 }) { mants.push(rng.gen::<u64>() & ((1 << 52) - 1)); }
+        for m in mants {
+            tr.emit(json!({"op": "de_token", "ty": "f64", "bits": u128_to_json(((neg << 63) | m) as u128)}));                   // subnormal
+            tr.emit(json!({"op": "de_token", "ty": "f64", "bits": u128_to_json(((neg << 63) | (1 << 52) | m) as u128)}));       // exponent field 1
+        }
+        let mut m32: Vec<u32> = vec![1, 2, 1 << 22, (1 << 23) - 1, 1 << 11];
+        for _ in 0..(if thorough { 200 } else { 20 }) { m32.push(rng.gen::<u32>() & ((1 << 23) - 1)); }
+        for m in m32 {
+            tr.emit(json!({"op": "de_token", "ty": "f32", "bits": u128_to_json((((neg as u32) << 31) | m) as u128)}));
+            tr.emit(json!({"op": "de_token", "ty": "f32", "bits": u128_to_json((((neg as u32) << 31) | (1 << 23) | m) as u128)}));
+        }
+    }
+    // the same region as JSON text (numbers that serde_json hands over as binary64)
+    for doc in ["5e-324", "-5e-324", "4.9406564584124654e-324", "-4.9406564584124654e-324", "2.2250738585072009e-308", "-2.2250738585072009e-308",
+                "2.2250738585072014e-308", "-2.2250738585072014e-308", "1e-310", "-1e-310", "-2.224e-320", "1.5e-315", "-1.5e-315", "-3e-323", "1.7976931348623157e308", "-1.7976931348623157e308"] {
+        for f in forms {
+            tr.emit(json!({"op": "de_json", "form": f, "doc": text_to_json(doc)}));
+        }
+    }
     for ty in ["bool", "unit", "bytes"] {
         tr.emit(json!({"op": "de_token", "ty": ty}));
     }
